@@ -121,10 +121,12 @@ func zzHasKV(e []zzKV, k, v []byte) bool {
 }
 
 // zzCheckMerged asserts that out is exactly snapshot ⊕ buffer in the requested order:
-//   order    — keys strictly monotone (so no key is repeated),
-//   sound    — every yielded pair is a live buffer pair, or a snapshot pair whose key the buffer
-//              does not mention,
-//   complete — every live buffer pair and every unshadowed snapshot pair is yielded.
+//
+//	order    — keys strictly monotone (so no key is repeated),
+//	sound    — every yielded pair is a live buffer pair, or a snapshot pair whose key the buffer
+//	           does not mention,
+//	complete — every live buffer pair and every unshadowed snapshot pair is yielded.
+//
 // Together these three say out = the model; nothing is skipped or invented.
 func zzCheckMerged(out, buf, snap []zzKV, reverse bool) {
 	okOrder, okSound, okComplete := true, true, true
